@@ -307,4 +307,22 @@ PROPS = {
                  "Err outcomes cannot be replayed without the choice trace",
                  "validator completeness (every model run is accepted by mnAccepts / pegAccepts) is not proved; it is exercised on every implementation result"],
     ),
+    "C19": dict(
+        level="proof",
+        trusted_base=[KERNEL, CORR,
+                      "modelled: the wrapper logic only (lean/LdpcV/Model/Capi.lean: pattern parsing, constructor error mapping, depuncture -> decode -> prefix copy -> "
+                      "iterations / -1, encode -> puncture -> exact-length copy), on top of the models of C08 (alist), C18 (names), C15 (puncturer), C02 (encoder) and "
+                      "the decoders; NOT modelled: memory safety of the unsafe shims, CStr / lossy UTF-8 decoding, file reading, slice construction from raw pointers",
+                      "independence of repeated calls on one handle is C10's theorem (the handle owns one decoder object); here it is observed on call sequences",
+                      "an alist with more rows than columns makes Encoder::from_h panic (abort across the FFI boundary); the stated constructor contract does not list "
+                      "that case and the check does not judge it (see DESIGN.md)"],
+        rule=("through extern \"C\" declarations of the exported ldpc_toolbox_* symbols: constructors on 7 alist texts (valid padded / unpadded, row index out of range = "
+              "repaired defect D2, truncated, empty, non-numeric, singular tail) x 7 implementation strings x 10 pattern strings, via string and via file, each in a "
+              "forked child so that an abort is an observable outcome, plus unreadable file paths; decode: all 36 names x 12 (300 thorough) (matrix, pattern, output "
+              "length, f64/f32, 1-5 calls on one handle) compared with the Rust LdpcDecoder on the depunctured LLRs and, for the 20 8-bit names, with the exact "
+              "model; encode: 300 (6000) encodable matrices x patterns x messages with bytes other than 0/1, compared with Rust Encoder + Puncturer and the model; "
+              "non-trivial = every constructor case, decode sequences of >= 2 calls, k >= 1; distinct = distinct canonical input"),
+        assumptions=COMMON_ASSUME,
+        partial=["memory safety of the unsafe shims and process-level behaviour (abort on panic across FFI) are observed only"],
+    ),
 }
